@@ -26,6 +26,11 @@ fn main() {
     match args[1].as_str() {
         "codec" => codec::cases(rest),
         "static" => statics::cases(rest),
+        "tznames" => {
+            for tz in chrono_tz::TZ_VARIANTS.iter() {
+                println!("{}", tz.name());
+            }
+        }
         "contend" => statics::contend(rest),
         "compress" => compress::cases(rest),
         "c17" => c17::run(rest),
